@@ -11,13 +11,13 @@ pub static DEF: CheckDef = CheckDef {
     id: "C13",
     run,
     replay,
-    rule: "proptest histories of up to 14 operations over {write DIV, write TIMA(v), write TMA(v), write TAC(v) (any byte), advance(n)} with n from 1 clock to 200000 clocks (biased to the four periods +-2 and to multiples of 65536), executed (1) on the Timer device directly (any n) and (2) through the bus (0xFF04-0xFF07, MemoryAreas::run_clock_cycles with multiples of 4, IF bit 2). After every operation DIV, TIMA, TMA, TAC (low 3 bits) and whether the timer interrupt was requested by that operation are compared with the per-clock reference timer (models::timer). Metamorphic: every advance(n) is also executed split at generated cut points on a second instance; observations after every operation must be identical to the unsplit run. Plus an exhaustive sweep: all 8 TAC values x every divider phase 0..2047 x TAC rewrite to every other value (the glitch relation), and all 8 TAC values x advance(n) for n in 1..=2100 from phase 0. Non-trivial = history with an overflow, a TAC-write edge, a disabled stretch or a split advance containing an increment; distinct by hash of the history.",
+    rule: "proptest histories of up to 14 operations over {write DIV, write TIMA(v), write TMA(v), write TAC(v) (any byte), advance(n)} with n from 1 clock to 200000 clocks (biased to the four periods +-2 and to multiples of 65536), executed (1) on the Timer device directly (any n) and (2) through the bus (0xFF04-0xFF07, MemoryAreas::run_clock_cycles with multiples of 4, IF bit 2). After every operation DIV, TIMA, TMA, TAC (low 3 bits) and whether the timer interrupt was requested by that operation are compared with the per-clock reference timer (models::timer). Metamorphic: every advance(n) is also executed split at generated cut points on a second instance; observations after every operation must be identical to the unsplit run. Plus an exhaustive sweep: all 8 TAC values x every divider phase 0..2047 x TAC rewrite to every other value (the glitch relation), and all 8 TAC values x advance(n) for n in 1..=2100 from phase 0. Non-trivial = history with an overflow, a TAC-write edge, a disabled stretch or a split advance containing an increment; distinct by hash of the history. Program layer (the glue between the CPU loop and the device): generated structured programs (C04's generator with the device fragments weighted up: TAC/TMA/TIMA writes, DIV reads, EI;HALT and STOP with a timer wake-up) run on a whole core in three stepping modes (interpreter instruction-stepped, interpreter block-stepped, jit block-stepped); the reference machine says which bus writes each step made, how many clocks it is worth and which request was acknowledged, and the independent model fed with exactly that must agree with DIV (and the 16-bit divider), TIMA, TMA, TAC and IF bit 2 after every step. A DIV write while the selected bit is high leaves TIMA one increment open, as at device level.",
     assumptions: &[
         "models::timer (divider + falling-edge detector, immediate TMA reload on overflow as the property states it)",
         "a DIV write while the selected divider bit is high: the property does not name that edge; both TIMA outcomes are accepted (set-valued model)",
         "TAC read-back is compared on its low 3 bits only",
     ],
-    required_classes: &["overflow", "tac-write-edge", "disabled-stretch", "split-advance-with-increment", "level-device", "level-bus", "exhaustive-tac-rewrite", "div-write-while-high"],
+    required_classes: &["overflow", "tac-write-edge", "disabled-stretch", "split-advance-with-increment", "level-device", "level-bus", "exhaustive-tac-rewrite", "div-write-while-high", "program-timer-overflow", "program-div-write", "program-halted-or-stopped-steps", "program-stopped-steps", "program-mode-block-jit", "program-tac-write-edge"],
     exhaustive: false,
 };
 
@@ -371,9 +371,14 @@ fn run(rec: &mut Rec) {
         });
     }
     rec.sample(|| case_json(&Case { level: 1, ops: vec![Op::Tac(5), Op::Tima(0xff), Op::Adv(16, vec![0x8000])] }));
+    // program layer: the timer as a whole core drives it
+    crate::sysobs::program_layer(rec, "program-timer", &[crate::sysobs::Dev::Timer], crate::prog::Focus { timer: 3, irq: 1, ..Default::default() }, rec.ctx.tier.pick(250u32, 6000), rec.ctx.tier.pick(2500u32, 10000), 1, program_nontrivial);
 }
 
 fn replay(case: &Value, rec: &mut Rec) {
+    if crate::sysobs::replay_program(case, rec, &[crate::sysobs::Dev::Timer]) {
+        return;
+    }
     let c: Case = match case.get("case").cloned().and_then(|v| serde_json::from_value(v).ok()) {
         Some(c) => c,
         None => {
@@ -386,4 +391,8 @@ fn replay(case: &Value, rec: &mut Rec) {
     if let Err(f) = exec(&mut ms, &c, rec, true) {
         rec.violation(&f.sig, case_json(&c), f.detail);
     }
+}
+
+fn program_nontrivial(o: &crate::sysobs::RunOutcome) -> bool {
+    o.stats.timer_overflows > 0 && (o.stats.suspended_steps > 0 || o.stats.div_writes > 0 || o.stats.tac_edges > 0)
 }
